@@ -13,9 +13,9 @@ from harness import core, tlc
 from props import misc_c35 as pc
 
 QUICK = dict(Forms={"periodic", "interval", "timer"}, Periods={1, 2, 3}, Starts={0, 2}, Firsts={0, 1, 3}, Durs={0, 1, 2},
-             Over={0, 1}, Horizon=8, MaxK=4)
+             Over={0, 1}, NoneAts={0, 2}, Horizon=8, MaxK=4)
 THOROUGH = dict(Forms={"periodic", "interval", "timer"}, Periods={1, 2, 3, 5}, Starts={0, 1, 3}, Firsts={0, 1, 2, 4}, Durs={0, 1, 2},
-                Over={0, 1, 3}, Horizon=11, MaxK=5)
+                Over={0, 1, 3}, NoneAts={0, 1, 3}, Horizon=11, MaxK=5)
 
 
 def variants(scn):
@@ -83,6 +83,8 @@ def run(tier: str) -> int:
         "action_takes_time": sum(1 for g in groups if any(g[0]["dur"])),
         "runs_to_horizon": sum(1 for g in groups if g[0]["stop"]["kind"] == "none"),
         "overrun": sum(1 for g in groups if g[0]["over"]),
+        "action_returns_none_then_called_again": sum(1 for g in groups if g[0]["noneAt"] and any(
+            len(o["ticks"]) >= g[0]["noneAt"] + 2 for o in g[1])),
         "overrun_dispose_during_call": sum(1 for g in groups if g[0]["over"] and g[0]["stop"]["kind"] == "dispose" and any(
             t[1] < g[0]["stop"]["at"] < t[1] + g[0]["dur"][t[0] % 2] for t in g[1][0]["ticks"])),
         "timer_first_differs_from_period": sum(1 for g in groups if g[0]["form"] == "timer" and g[0]["first"] != g[0]["p"]),
